@@ -17,7 +17,7 @@ open Gen Mw GenMerge
 abbrev MB := Mw.B Float Float Float
 abbrev MD := Mw.D Float Float Float Float
 
-def showE {τ : Type} (r : Mw.M τ) (f : τ → Except String String) : Except String String :=
+def showME {τ : Type} (r : Mw.M τ) (f : τ → Except String String) : Except String String :=
   match r with
   | .ok x => f x
   | .error e => pure s!"EXC:{e.name}"
@@ -50,14 +50,14 @@ private partial def parseBs (k : Nat) (r : List String) (acc : List (Mw.M MB)) :
       let (b, r) ← parseB r
       parseBs k r (b :: acc)
 
-def condNormalBase : Distn Float Float Float Float :=
+def mgCondNormalBase : Distn Float Float Float Float :=
   (Gen.DistCore.mk (fun k c => k + c) (fun x c => Stats.normLogpdf (x - c))).toDist
 
-def showOptShape : Option (List Nat) → String
+def showOptShapeM : Option (List Nat) → String
   | none => "N"
   | some s => "S" ++ showNats s
 
-def distOps (d : Distn Float Float Float Float) (what : String) (a c : Float) : Except String String :=
+def mgDistOps (d : Distn Float Float Float Float) (what : String) (a c : Float) : Except String String :=
   match what with
   | "lp" => pure (showF (d.logProb a c))
   | "s" => pure (showF (d.sample a c))
@@ -70,7 +70,7 @@ def mgmt : Handler
       let b0 : MD ← match base with
         | "N" => pure (.base stdNormalBase [] none)
         | "S" => pure (.base stdNormalBase [] (some []))
-        | "CN" => pure (.base condNormalBase [] (some []))
+        | "CN" => pure (.base mgCondNormalBase [] (some []))
         | _ => .error "base"
       -- the nested object, built innermost first through the regenerated constructors
       let nested : Mw.M MD := bs.foldl (fun d b => d.bind fun d => b.bind fun b => (Mw.mkTransformed d b).map TObj.toD) (.ok b0)
@@ -79,17 +79,17 @@ def mgmt : Handler
         | .transformed bd bj => .ok ⟨bd, bj⟩
         | .base .. => .error (.py .typeError)
       match rest with
-      | ["struct"] => showE (tobj.bind Transformed.mergeTransforms) fun m => do
+      | ["struct"] => showME (tobj.bind Transformed.mergeTransforms) fun m => do
           let members : List MB := (match m.bijection with
             | .chain l _ _ => l
             | _ => [])
           let cs : String := (match m.toD.cond_shape with
-            | .ok c => showOptShape c
+            | .ok c => showOptShapeM c
             | .error e => e.name)
           pure s!"{showBool m.base_dist.isTransformed} {showBool m.bijection.isChain} {members.length} {showBool (members.any B.isChain)} {showNats m.toD.shape} {cs}"
-      | ["cs"] => showE (tobj.bind Transformed.condShape) fun c => pure (showOptShape c)
-      | ["shape"] => showE tobj fun t => pure (showNats (Transformed.shape t))
-      | ["leaf", i, x, c] => showE (tobj.bind Transformed.mergeTransforms) fun m => do
+      | ["cs"] => showME (tobj.bind Transformed.condShape) fun c => pure (showOptShapeM c)
+      | ["shape"] => showME tobj fun t => pure (showNats (Transformed.shape t))
+      | ["leaf", i, x, c] => showME (tobj.bind Transformed.mergeTransforms) fun m => do
           match m.bijection with
           | .chain l _ _ =>
               match l[← parseNat i]? with
@@ -98,13 +98,13 @@ def mgmt : Handler
           | b => pure (showF (b.toBij.fwd (← parseF x) (← parseF c)))
       | [what, a, c] =>
           if what.startsWith "n" then
-            showE tobj fun t => do distOps t.toD.toDistn (what.drop 1).toString (← parseF a) (← parseF c)
+            showME tobj fun t => do mgDistOps t.toD.toDistn (what.drop 1).toString (← parseF a) (← parseF c)
           else
-            showE (tobj.bind Transformed.mergeTransforms) fun m => do distOps m.toD.toDistn what (← parseF a) (← parseF c)
+            showME (tobj.bind Transformed.mergeTransforms) fun m => do mgDistOps m.toD.toDistn what (← parseF a) (← parseF c)
       | _ => .error "bad mgmt query"
   | _ => .error "bad mgmt op"
 
-def parseOptInt (s : String) : Except String (Option Int) :=
+def parseOptIntN (s : String) : Except String (Option Int) :=
   if s == "N" then pure none else do pure (some (← parseInt s))
 
 def mgch : Handler
@@ -115,29 +115,29 @@ def mgch : Handler
         | .chain l s c => .ok ⟨l, s, c⟩
         | .leaf .. => .error (.py .typeError)
       match rest with
-      | ["len"] => showE cobj fun c => pure (toString (Chain.len c))
-      | ["iter"] => showE cobj fun c => pure (toString (Chain.iter c).length)
-      | ["mcs"] => showE (cobj.bind Chain.mergeChains) fun c => do
-          pure s!"{c.bijections.length} {showBool (c.bijections.any B.isChain)} {showNats c.shape} {showOptShape c.cond_shape}"
-      | ["mc", m, x, c] => showE (cobj.bind Chain.mergeChains) fun r => do
+      | ["len"] => showME cobj fun c => pure (toString (Chain.len c))
+      | ["iter"] => showME cobj fun c => pure (toString (Chain.iter c).length)
+      | ["mcs"] => showME (cobj.bind Chain.mergeChains) fun c => do
+          pure s!"{c.bijections.length} {showBool (c.bijections.any B.isChain)} {showNats c.shape} {showOptShapeM c.cond_shape}"
+      | ["mc", m, x, c] => showME (cobj.bind Chain.mergeChains) fun r => do
           applyM r.toB.toBij m (← parseF x) showF (← parseF c)
-      | ["mcleaf", i, x, c] => showE (cobj.bind Chain.mergeChains) fun r => do
+      | ["mcleaf", i, x, c] => showME (cobj.bind Chain.mergeChains) fun r => do
           match r.bijections[← parseNat i]? with
           | some b => pure (showF (b.toBij.fwd (← parseF x) (← parseF c)))
           | none => .error "leaf index"
       | ["geti", i, m, x, c] => do
           let i ← parseInt i
-          showE (cobj.bind fun co => Chain.getitem co (.int i)) fun r => do
+          showME (cobj.bind fun co => Chain.getitem co (.int i)) fun r => do
             applyM r.toBij m (← parseF x) showF (← parseF c)
       | ["gets", a, b, k, m, x, c] => do
-          let s : Mw.Slice := ⟨← parseOptInt a, ← parseOptInt b, ← parseOptInt k⟩
-          showE (cobj.bind fun co => Chain.getitem co (.slice s)) fun r => do
+          let s : Mw.Slice := ⟨← parseOptIntN a, ← parseOptIntN b, ← parseOptIntN k⟩
+          showME (cobj.bind fun co => Chain.getitem co (.slice s)) fun r => do
             let v ← applyM r.toBij m (← parseF x) showF (← parseF c)
             let n : Nat := (match r with
               | .chain l _ _ => l.length
               | _ => 0)
-            pure s!"{n} {showOptShape r.cond_shape} {v}"
-      | ["geto"] => showE (cobj.bind fun co => Chain.getitem co .other) fun _ => pure "value"
+            pure s!"{n} {showOptShapeM r.cond_shape} {v}"
+      | ["geto"] => showME (cobj.bind fun co => Chain.getitem co .other) fun _ => pure "value"
       | _ => .error "bad mgch query"
 
 end Drv
